@@ -63,7 +63,7 @@ SPEC = {
         "redis/miniredis and hybrid); Redis itself is not modelled",
     ],
     "assumptions": [
-        "scope (built into the event alphabet): connection ids are unique in the cluster, a connection lives on one node and is "
+        "scope (built into the event alphabet): a connection id names one node and one client (an id may be accepted again after its CloseConnection), a connection lives on one node and is "
         "used by one client id (re-authentication of a connection under another id is C07); the auth outcome is an input",
         "granularity: one event = one handler call, events of different nodes do not overlap (the property quantifies over "
         "event histories). Below that granularity the repaired UnregisterConnection / RefreshConnection are get-then-delete / "
